@@ -221,6 +221,8 @@ pub struct Entry {
     pub gen_save: fn(&mut Rng, usize, u32, Kind) -> (String, String, Result<Vec<u8>, String>),
     pub load: fn(Kind, u32, &str, &[u8]) -> String,
     pub schema_bytes: fn(u32, u32) -> Vec<u8>,
+    /// C04 direct oracle (bulk containers of this type vs element-wise encoding)
+    pub bulk: fn(&str, &mut Rng, usize, u32) -> Vec<String>,
 }
 
 impl Entry {
@@ -262,6 +264,7 @@ pub fn entry<T: ZooVal + Serialize + Deserialize + Packed + WithSchema + 'static
         gen_save: gen_save_impl::<T>,
         load: load_container::<T>,
         schema_bytes: schema_bytes::<T>,
+        bulk: bulk_check::<T>,
     }
 }
 
@@ -333,4 +336,114 @@ pub fn isolated(f: impl FnOnce() -> String) -> String {
         }
         String::from_utf8_lossy(&out).to_string()
     }
+}
+
+// ---------------------------------------------------------------------------------------------
+// C04 direct oracle: bulk containers vs element-wise encoding, on the implementation alone
+
+fn enc_or<T: Serialize>(ver: u32, x: &T) -> Option<Vec<u8>> {
+    bare_enc(ver, x).ok()
+}
+
+pub fn bulk_check<T: ZooVal + Serialize + Deserialize + Packed + 'static>(name: &str, r: &mut Rng, sz: usize, ver: u32) -> Vec<String> {
+    let mut out = Vec::new();
+    let n = match r.below(6) {
+        0 => 0,
+        1 => 1,
+        2 => 2,
+        3 => 3,
+        4 => 64 + r.below(3) as usize,
+        _ => r.len(sz.max(4)),
+    };
+    let items: Vec<T> = (0..n).map(|_| T::gen(r, sz / 2)).collect();
+    let mut singles: Vec<Vec<u8>> = Vec::new();
+    for it in items.iter() {
+        match enc_or(ver, it) {
+            Some(b) => singles.push(b),
+            None => return out, // the element cannot be written at this version at all
+        }
+    }
+    let mut expected = (n as u64).to_le_bytes().to_vec();
+    for s in &singles {
+        expected.extend_from_slice(s);
+    }
+    let item_sx: Vec<String> = singles
+        .iter()
+        .map(|s| bare_dec::<T>(ver, s))
+        .collect();
+    let report = |out: &mut Vec<String>, container: &str, got: Option<Vec<u8>>| {
+        match got {
+            Some(g) if g == expected => {}
+            Some(g) => out.push(format!(
+                "!C04 bulk-bytes container={} type={} ver={} n={} elementwise={} bulk={}",
+                container, name, ver, n, hex(&expected), hex(&g)
+            )),
+            None => out.push(format!("!C04 bulk-save-failed container={} type={} ver={} n={}", container, name, ver, n)),
+        }
+    };
+    report(&mut out, "slice", enc_or(ver, &&items[..]));
+    report(&mut out, "Vec", enc_or(ver, &items));
+    // bulk read of the element-wise bytes vs element-wise reads
+    let all_ok = item_sx.iter().all(|s| s.starts_with("(ok ") && s.ends_with(" 0)"));
+    if all_ok {
+        let want = format!(
+            "(ok (q{}) 0)",
+            item_sx.iter().map(|s| format!(" {}", &s[4..s.len() - 3])).collect::<String>()
+        );
+        let got = bare_dec::<Vec<T>>(ver, &expected);
+        if got != want {
+            out.push(format!("!C04 bulk-read type={} ver={} n={} bytes={} elementwise={} bulk={}", name, ver, n, hex(&expected), want, got));
+        }
+    }
+    let boxed: Box<[T]> = items.into_boxed_slice();
+    report(&mut out, "Box<[T]>", enc_or(ver, &boxed));
+    let arc: std::sync::Arc<[T]> = boxed.into();
+    report(&mut out, "Arc<[T]>", enc_or(ver, &arc));
+    // fixed-size array and ArrayVec (no length prefix / same prefix)
+    let three: Vec<T> = (0..3).map(|_| T::gen(r, sz / 2)).collect();
+    let mut exp3 = Vec::new();
+    let mut ok3 = true;
+    for it in three.iter() {
+        match enc_or(ver, it) {
+            Some(b) => exp3.extend_from_slice(&b),
+            None => ok3 = false,
+        }
+    }
+    if ok3 {
+        let mut av: arrayvec::ArrayVec<T, 5> = arrayvec::ArrayVec::new();
+        let mut it = three.into_iter();
+        let a0 = it.next().unwrap();
+        let a1 = it.next().unwrap();
+        let a2 = it.next().unwrap();
+        let arr: [T; 3] = [a0, a1, a2];
+        match enc_or(ver, &arr) {
+            Some(g) if g == exp3 => {}
+            Some(g) => out.push(format!("!C04 bulk-bytes container=[T;3] type={} ver={} elementwise={} bulk={}", name, ver, hex(&exp3), hex(&g))),
+            None => out.push(format!("!C04 bulk-save-failed container=[T;3] type={} ver={}", name, ver)),
+        }
+        let got = bare_dec::<[T; 3]>(ver, &exp3);
+        let [a0, a1, a2] = arr;
+        let want = format!("(ok (t {} {} {}) 0)", a0.sx(true), a1.sx(true), a2.sx(true));
+        // compare only when the type round-trips exactly (no ignored / absent fields): use element-wise reads
+        let e0 = bare_dec::<T>(ver, &enc_or(ver, &a0).unwrap_or_default());
+        if e0 == format!("(ok {} 0)", a0.sx(true)) && got != want && got.starts_with("(ok") {
+            // only flag when the first element is known to round-trip exactly
+            let e1 = bare_dec::<T>(ver, &enc_or(ver, &a1).unwrap_or_default());
+            let e2 = bare_dec::<T>(ver, &enc_or(ver, &a2).unwrap_or_default());
+            if e1 == format!("(ok {} 0)", a1.sx(true)) && e2 == format!("(ok {} 0)", a2.sx(true)) {
+                out.push(format!("!C04 bulk-read container=[T;3] type={} ver={} want={} got={}", name, ver, want, got));
+            }
+        }
+        av.push(a0);
+        av.push(a1);
+        av.push(a2);
+        let mut expav = 3u64.to_le_bytes().to_vec();
+        expav.extend_from_slice(&exp3);
+        match enc_or(ver, &av) {
+            Some(g) if g == expav => {}
+            Some(g) => out.push(format!("!C04 bulk-bytes container=ArrayVec type={} ver={} elementwise={} bulk={}", name, ver, hex(&expav), hex(&g))),
+            None => out.push(format!("!C04 bulk-save-failed container=ArrayVec type={} ver={}", name, ver)),
+        }
+    }
+    out
 }
